@@ -40,7 +40,13 @@ func newAPI(d *drive.Daemon) *apiCaller {
 }
 
 // call returns the JSON of the result, or an error if the handler returned one.
-func (a *apiCaller) call(method string, params interface{}) (json.RawMessage, error) {
+func (a *apiCaller) call(method string, params interface{}) (out json.RawMessage, err error) {
+	// a handler that panics is behaviour of the code under test, not of the harness
+	defer func() {
+		if p := recover(); p != nil {
+			out, err = nil, fmt.Errorf("handler %s panicked: %v", method, p)
+		}
+	}()
 	var raw json.RawMessage
 	if params != nil {
 		b, _ := json.Marshal(params)
